@@ -132,6 +132,20 @@ fn birkhoff_orders(cx: &mut Cx, rng: &mut impl RngCore, n: usize, stride: usize)
     count
 }
 
+/// EVERY rank vector in {0..n-1}^n on n DISTINCT points (not only Hermite patterns): most are admissible (e.g. ranks [1, 0] on two
+/// points), some are singular (both sides must then fail alike) — fast paths for particular n or rank patterns show here
+fn birkhoff_all_ranks(cx: &mut Cx, rng: &mut impl RngCore, n: usize) -> usize {
+    let total = n.pow(n as u32);
+    for code in 0..total {
+        let mut c = code; let mut ranks = vec![0usize; n];
+        for r in ranks.iter_mut() { *r = c % n; c /= n; }
+        let xs: Vec<Scalar> = (0..n).map(|i| if code % 2 == 0 { Scalar::from(i as u64 + 1) } else { loop { let x = Scalar::random(&mut *rng); if !bool::from(x.is_zero()) { break x; } } }).collect();
+        let params: Vec<(Scalar, usize)> = xs.into_iter().zip(ranks).collect();
+        birkhoff_run(cx, rng, params, "birkhoff-all-ranks", false);
+    }
+    total
+}
+
 fn birkhoff_run(cx: &mut Cx, rng: &mut impl RngCore, params: Vec<(Scalar, usize)>, stream: &str, lagrange: bool) {
     let n = params.len();
     let pairs = params.iter().map(|(x, r)| format!("{}:{r}", sc_hex(x))).collect::<Vec<_>>().join(",");
@@ -208,6 +222,8 @@ pub fn run(o: &Opts, drv: &mut Driver, rep: &mut Report) {
     let mut total = 0; for n in 1..=omax { total += birkhoff_orders(&mut cx, &mut rng, n, 1); }
     if thorough { let k = birkhoff_orders(&mut cx, &mut rng, 6, 11); cx.rep.hist(&format!("birkhoff-orders:n=6 every 11th arrangement ({k})")); }
     cx.rep.exhaustive.push(format!("birkhoff_coeffs on every arrangement of every Hermite rank pattern with n <= {omax} pairs ({total} arrangements)"));
+    { let mut t = 0; for n in 1..=(if thorough { 4 } else { 3 }) { t += birkhoff_all_ranks(&mut cx, &mut rng, n); }
+      cx.rep.exhaustive.push(format!("birkhoff_coeffs on every rank vector in {{0..n-1}}^n over n distinct points, n <= {} ({t} sets)", if thorough { 4 } else { 3 })); }
     // Birkhoff / Lagrange
     let nmax = if thorough { 10 } else { 7 };
     let reps = (if thorough { 30 } else { 3 }) * o.scale;
